@@ -112,7 +112,9 @@ const ESCAPES: &[&str] = &[
     "\\000041 ", "\\123456789 ", "\\ffffffff ", "\\100000000 ", "\\41x", "\\4g", "\\41", "\\é", "\\😀", "\\3 a", "\\a", "\\g",
     "\\41  ", "\\10ffff ", "\\d7ff ", "\\e000 ", "\\7f ", "\\80 ", "\\7ff ", "\\800 ", "\\ffff ", "\\10000 ",
 ];
-const TAILS: &[&str] = &["", "", " > div", ":hover", "[href]", ".b", " ", ",x", " .c", "#i", "\\", "\\\\", "(x)", "+p", "~q", "*", "\u{1}"];
+const TAILS: &[&str] = &["", "", " > div", ":hover", "[href]", ".b", " ", ",x", " .c", "#i", "\\", "\\\\", "(x)", "+p", "~q", "*", "\u{1}",
+    // runs of blanks (after a hex escape the first blank ends the escape, the second is a combinator)
+    "  b", "  .c", "\t.c", "   > div", "  "];
 const HEADS: &[&str] = &[".", ".", ".", ".", ".", "#", "#", "#", "#", "", "div", "*", "[id]", "..", "#.", ".#"];
 
 fn gen_ident(r: &mut Rng) -> String {
@@ -257,6 +259,12 @@ fn generic_partition_mismatches(lines: &[String]) -> Vec<String> {
         if let Ok(ParsedFilter::Cosmetic(f)) = parse_filter(l, false, Default::default()) {
             let Some(sel) = f.plain_css_selector() else { continue };
             let crate_generic = if f.has_hostname_constraint() { f.hidden_generic_rule().and_then(|h| h.plain_css_selector().map(|s| s.to_string())) } else { Some(sel.to_string()) };
+            // the selector is stored as written (no CSS validation / normalisation in this build)
+            if let Some(stored) = &crate_generic {
+                if stored != sel_text && stored.trim() != sel_text.trim() {
+                    out.push(format!("the rule {:?} is stored with the selector {:?}, which is not the selector it is written with", l, stored));
+                }
+            }
             if text_generic != crate_generic.is_some() {
                 out.push(format!("the rule {:?} is {} by its location list, but the crate {}", l, if text_generic { "generic (no positive location)" } else { "scoped to hosts" }, if crate_generic.is_some() { "files its selector with the generic rules" } else { "gives it no generic rule" }));
             }
